@@ -27,7 +27,7 @@ BASE = {
     "weights": {
         "at": 4, "at_num": 0.5, "mk_partial": 3, "mk_derivative": 0.5, "mk_differential": 5,
         "mk_located": 5, "pat": 3, "dat": 5, "comp": 4, "compat": 3, "lcomp": 5, "asx": 5,
-        "build": 2, "norm": 5, "eq": 1, "hash": 0.5, "repr": 1,
+        "build": 2, "norm": 5, "eq": 1, "hash": 0.5, "repr": 1, "peq": 1.5,
     },
 }
 
@@ -195,7 +195,7 @@ def main(args, seed):
         return do_replay(args.replay)
     t0 = time.time()
     tier = args.tier
-    n_runs = args.runs or (2500 if tier == "quick" else 12000)
+    n_runs = args.runs or (2500 if tier == "quick" else 30000)
     cfgs = configs_for(tier)
     workers = args.workers or min(16, os.cpu_count() or 1)
     # every configuration executes the same run indices; slices keep all cores busy
@@ -216,6 +216,9 @@ def main(args, seed):
             ji += 1
         ci, s, proc = running.pop(0)
         results[(ci, s)] = collect(proc, 1800)
+        if time.time() - getattr(main, "_last", t0) > 60:
+            main._last = time.time()
+            print(f"progress: {len(results)}/{len(jobs)} interpreter slices, {time.time() - t0:.0f}s", flush=True)
     # compare digests run by run across configurations
     mismatches = []
     digests = {}
